@@ -360,6 +360,31 @@ def run(check, tier, seed, scratch):
         check.error('Fallback: %s\n%s' % (r.invariants_violated, r.out[-1500:]))
     mods = stdlib_modules()
     run_trace_leg(check, scratch, 'corpus', corpus_gen(mods, seed, 0.35 if quick else 1.0), None, module='Trace_Corpus', describe=describe, classify=classify)
+    # narrowing, systematically: forwarding wrappers from the signature universe (function, closure, method, attribute routes), discovered, and
+    # really called on the complete call set -- a call the discovered signature accepts must not be refused by the wrapper's own def
+    from . import c04
+    from .. import alggen
+    U2 = tlc.export_universe(scratch, 'ab', ['args'], ['kwargs'], 2)
+    UO = [ps for ps in U2 if alggen.has_star(ps)]
+    UI = [c04.rename(ps, {'a': 'x', 'b': 'y'}) for ps in U2]
+
+    def grid(shard, nshards):
+        r2 = random.Random(seed + 41)
+        for k in range(4000 if quick else 100000):
+            a, b = r2.randrange(len(UO)), r2.randrange(len(UI))
+            fl = dict(c04.written_flags(UO[a], UI[b], r2), partial=False)
+            placement = ['auto', 'auto_closure', 'auto_method', 'auto_attr', 'auto_wraps', 'auto_hint'][k % 6]
+            if k % nshards == shard:
+                yield c04.prog_event('narrow/%d-%s' % (k, placement), UO[a], UI[b], fl, placement)
+
+    def classify_grid(tid, clause, case):
+        if clause == 'C04_AcceptedCallRaisesTypeError':
+            return 'C07_AcceptedCallRefusedByOwnDefOrCallee'
+        if clause == 'C07_RetrievalRaised':
+            return clause
+        return 'IGNORE'
+    run_trace_leg(check, scratch, 'narrowing-grid', grid, None, module='Trace_Exec', describe=c04.describe, classify=classify_grid)
+    check.failures = [f for f in check.failures if f['key'] != 'IGNORE']
     check.cov['exhaustive'] = False
     check.cov['rule'] = ('%d modules (importable standard library, sigtools, attr, sphinx.util, docutils.utils, jinja2.utils): every callable module attribute and every callable class '
                          'attribute (%s), plus %d generated adversarial callables; per object inspect.signature vs sigtools.signature (auto on/off) vs signatures.signature, narrowing '
